@@ -14,7 +14,8 @@ Tr == ndJsonDeserialize(IOEnv.TRACE_FILE)
 VARIABLE l
 SeqSet(s) == {s[i] : i \in 1..Len(s)}
 InfoOfObs(o) == [f \in DOMAIN o.info |-> [cop |-> o.info[f].cop, lic |-> SeqSet(o.info[f].lic)]]
-CmdOf(e) == [kind |-> e.cmd.kind, files |-> SeqSet(e.cmd.files), cop |-> e.cmd.cop, lic |-> SeqSet(e.cmd.lic)]
+OwnOfObs(o) == [f \in DOMAIN o.own |-> [cop |-> o.own[f].cop, lic |-> SeqSet(o.own[f].lic)]]
+CmdOf(e) == [kind |-> e.cmd.kind, files |-> SeqSet(e.cmd.files), cop |-> e.cmd.cop, lic |-> SeqSet(e.cmd.lic), dot |-> e.cmd.dot, skip |-> e.cmd.skip]
 ReportOK(o) == LET i == InfoOfObs(o)
                    p == SeqSet(o.present)
                IN  /\ SeqSet(o.missing) = Missing(i, p)
@@ -42,8 +43,14 @@ Clauses(e) ==
        c01 == IF ~ReportOK(e.post) THEN "C01.report-is-not-the-one-the-declarations-imply"
               ELSE IF c.kind = "lint" /\ e.exit # ExitOf(c, i, p) THEN "C01.exit-status-is-not-the-verdict"
               ELSE ""
+       c13 == IF c.kind = "lint-file" /\ e.exit # ExitOf(c, i, p) THEN "C13.lint-file-exit-status-is-not-the-named-files-verdict" ELSE ""
+       o  == OwnOfObs(e.pre)
+       o2 == OwnOfObs(e.post)
+       s  == SeqSet(e.pre.sib)
+       s2 == SeqSet(e.post.sib)
        c15 == IF c.kind # "convert-dep5" /\ g2 # g THEN "C15.command-moved-the-project-wide-declaration"
-              ELSE IF c.kind \in {"lint", "spdx"} /\ (i2 # i \/ p2 # p) THEN "C15.read-only-command-changed-what-the-project-declares"
+              ELSE IF c.kind \in {"lint", "lint-file", "spdx"} /\ (i2 # i \/ p2 # p \/ s2 # s) THEN "C15.read-only-command-changed-what-the-project-declares"
+              ELSE IF s2 # ApplySib(c, o, s) THEN "C15.set-of-license-siblings-is-not-the-one-the-command-implies"
               ELSE IF c.kind = "annotate" /\ p2 # p THEN "C15.annotate-changed-LICENSES"
               ELSE IF dl /\ i2 # i THEN "C15.download-changed-declarations"
               ELSE ""
@@ -52,16 +59,21 @@ Clauses(e) ==
                    THEN "C18.file-sections-are-not-what-lint-attributes"     \* one section per covered file, its licences and whether it names a holder
               ELSE ""
        c09 == IF c.kind = "annotate" /\ same /\ Lost(i, i2) THEN "C09.previously-declared-information-dropped" ELSE ""
-       c07 == IF c.kind = "annotate" /\ same /\ (e.exit # 0 \/ i2 # ApplyInfo(c, i)) THEN "C07.read-back-differs-from-request" ELSE ""
+       \* what each file declares itself (header or sibling) after the run is what the command implies - --skip-existing and
+       \* --force-dot-license included -, and the linter's view is that aggregated with the project-wide declaration
+       ex  == ApplyInfoS(c, o, s)
+       c07 == IF c.kind = "annotate" /\ same /\ DOMAIN o = DOMAIN i /\
+                 (e.exit # 0 \/ o2 # ex \/ i2 # [f \in DOMAIN i |-> [cop |-> i[f].cop \/ ex[f].cop, lic |-> i[f].lic \cup ex[f].lic]])
+              THEN "C07.read-back-differs-from-request" ELSE ""
        c19 == IF ~dl THEN ""
               ELSE IF ~(p \subseteq p2) THEN "C19.existing-text-removed"
               ELSE IF p2 # ApplyPresent(c, i, p) THEN "C19.supplied-set-is-not-the-requested-or-missing-set"
               ELSE IF e.exit # ExitOf(c, i, p) THEN "C19.exit-status"
               ELSE ""
    IN  IF e.crash # "" THEN {"crash"}
-       ELSE {x \in {c17, c03, c01, c15, c18, c09, c07, c19} : x # ""}
+       ELSE {x \in {c17, c03, c01, c13, c15, c18, c09, c07, c19} : x # ""}
 KnownFinding(e, c) == ""
-TInit == l = 1 /\ info = <<>> /\ present = {} /\ hist = <<>> /\ start = <<>> /\ glob = "none"
+TInit == l = 1 /\ info = <<>> /\ present = {} /\ hist = <<>> /\ start = <<>> /\ glob = "none" /\ sib = {}
 TNext == /\ l <= Len(Tr)
          /\ LET e == Tr[l]
             IN  \A c \in Clauses(e) : PrintT(<<"REJECT", e.tid, e.k, c, KnownFinding(e, c), e.label>>)
